@@ -225,6 +225,11 @@ pub struct Case {
     /// instant (values whose Debug impl is slow); every later output has to show both
     #[serde(default)]
     pub concurrent: Option<(u8, u8, u8, i64, i64)>,
+    /// the JSON layer sits behind a per-layer filter that disables the spans of span callsite
+    /// `.0` for it (a second, unfiltered layer keeps them alive): they must not appear in its
+    /// output, the other spans in scope must
+    #[serde(default)]
+    pub hidden: Option<u8>,
 }
 
 #[derive(Clone)]
@@ -284,9 +289,19 @@ fn run_case_inner(case: &Case) -> Outcome {
     let f10_open = kf::load("C14").iter().any(|f| f.id == "F10" && f.status == "open");
     let out = Out(Default::default());
     let layer = fmt::subscriber().json().without_time().with_writer(out.clone()).flatten_event(case.flatten).with_current_span(case.current_span).with_span_list(case.span_list).with_target(case.target).with_level(case.level).with_thread_ids(case.thread).with_thread_names(case.names);
-    let d = Dispatch::new(Registry::default().with(layer));
-    let _g = tracing_core::dispatch::set_default(&d);
     let span_metas = [&METAS[0], &METAS[1], &METAS[2]];
+    let hidden_meta: Option<&'static Metadata<'static>> = case.hidden.map(|k| span_metas[k as usize % 3]);
+    struct Quiet;
+    impl<C: tracing_core::Collect> tracing_subscriber::subscribe::Subscribe<C> for Quiet {}
+    let d = match hidden_meta {
+        None => Dispatch::new(Registry::default().with(layer)),
+        Some(hm) => {
+            use tracing_subscriber::subscribe::Subscribe as _;
+            let f = tracing_subscriber::filter::filter_fn(move |m| m.callsite() != hm.callsite());
+            Dispatch::new(Registry::default().with(layer.with_filter(f)).with(Quiet))
+        }
+    };
+    let _g = tracing_core::dispatch::set_default(&d);
     let event_metas = [&METAS[3], &METAS[4], &METAS[5]];
 
     // model of each span: name + last written value per field
@@ -294,6 +309,8 @@ fn run_case_inner(case: &Case) -> Outcome {
         id: span::Id,
         meta: &'static Metadata<'static>,
         vals: Vec<Option<Val>>,
+        /// disabled for the JSON layer by its per-layer filter
+        hidden: bool,
     }
     let mut chain: Vec<MSpan> = vec![];
     let mut classes: Vec<String> = vec![];
@@ -304,8 +321,17 @@ fn run_case_inner(case: &Case) -> Outcome {
         let nf = meta.fields().len();
         let init: Vec<Option<Val>> = (0..nf).map(|i| sp.init.get(i).cloned().flatten()).collect();
         let owned: Vec<Option<Owned>> = init.iter().map(|v| v.as_ref().map(Owned::of)).collect();
+        if hidden_meta.is_some() {
+            // what the macros do first: ask the stack (this is what tells a per-layer filter
+            // about the callsite)
+            let _ = d.enabled(meta);
+        }
         let id = with_values(meta, &owned, |vs| d.new_span(&span::Attributes::new(meta, vs)));
-        let mut ms = MSpan { id, meta, vals: init };
+        let is_hidden = hidden_meta.map(|h| h.callsite() == meta.callsite()).unwrap_or(false);
+        let mut ms = MSpan { id, meta, vals: init, hidden: is_hidden };
+        if is_hidden {
+            classes.push("span_hidden_from_the_json_layer".into());
+        }
         let names_need_escape = meta.fields().iter().any(|f| f.name().chars().any(|c| c == '"' || c == '\\' || (c as u32) < 0x20));
         let mut apply = |ms: &mut MSpan, rec: &Vec<(u8, Val)>, excluded: &mut u32| {
             if names_need_escape && f10_open {
@@ -319,7 +345,7 @@ fn run_case_inner(case: &Case) -> Outcome {
             let owned: Vec<Option<Owned>> = vals.iter().map(|v| v.as_ref().map(Owned::of)).collect();
             with_values(ms.meta, &owned, |vs| d.record(&ms.id, &span::Record::new(vs)));
             for (i, v) in vals.into_iter().enumerate() {
-                if v.is_some() {
+                if v.is_some() && !ms.hidden {
                     ms.vals[i] = v;
                 }
             }
@@ -340,7 +366,7 @@ fn run_case_inner(case: &Case) -> Outcome {
 
     let fail = |sig: &str, detail: String, line: &str| Outcome::fail(sig.to_string(), format!("{detail}; line = {line:?}; case = {}", serde_json::to_string(case).unwrap_or_default()));
 
-    if let (Some((si, fa, fb, va, vb)), false) = (case.concurrent, chain.is_empty()) {
+    if let (Some((si, fa, fb, va, vb)), false, None) = (case.concurrent, chain.is_empty(), hidden_meta) {
         let k = si as usize % chain.len();
         let nf = chain[k].meta.fields().len();
         let (fa, fb) = (fa as usize % nf, fb as usize % nf);
@@ -380,7 +406,7 @@ fn run_case_inner(case: &Case) -> Outcome {
                 let owned: Vec<Option<Owned>> = vals.iter().map(|v| v.as_ref().map(Owned::of)).collect();
                 with_values(ms.meta, &owned, |vs| d.record(&ms.id, &span::Record::new(vs)));
                 for (i, v) in vals.into_iter().enumerate() {
-                    if v.is_some() {
+                    if v.is_some() && !ms.hidden {
                         ms.vals[i] = v;
                     }
                 }
@@ -393,7 +419,11 @@ fn run_case_inner(case: &Case) -> Outcome {
         let vals: Vec<Option<Val>> = (0..nf).map(|i| ev.values.get(i).cloned().flatten()).collect();
         let owned: Vec<Option<Owned>> = vals.iter().map(|v| v.as_ref().map(Owned::of)).collect();
         out.0.lock().unwrap().clear();
-        let parent = ev.parent.and_then(|p| chain.get(p as usize % chain.len().max(1)));
+        let ev_parent = if hidden_meta.is_some() { None } else { ev.parent };
+        let parent = ev_parent.and_then(|p| chain.get(p as usize % chain.len().max(1)));
+        if hidden_meta.is_some() {
+            let _ = d.enabled(meta);
+        }
         with_values(meta, &owned, |vs| match parent {
             Some(p) => d.event(&Event::new_child_of(p.id.clone(), meta, vs)),
             None => d.event(&Event::new(meta, vs)),
@@ -466,9 +496,10 @@ fn run_case_inner(case: &Case) -> Outcome {
         };
         // `span` is the event's parent (explicit parent, else the current span); `spans` is
         // documented as "all currently entered spans", root to leaf, whatever the parent is
-        let scope_leaf: Option<usize> = match ev.parent {
+        let scope_leaf: Option<usize> = match ev_parent {
             Some(p) if !chain.is_empty() => Some(p as usize % chain.len()),
-            _ => chain.len().checked_sub(1),
+            // the innermost entered span this layer can see
+            _ => (0..chain.len()).rev().find(|k| !chain[*k].hidden),
         };
         let list_leaf = chain.len().checked_sub(1);
         if case.current_span {
@@ -485,8 +516,9 @@ fn run_case_inner(case: &Case) -> Outcome {
         }
         if case.span_list {
             if let Some(l) = list_leaf {
-                let want: Vec<&MSpan> = chain[..=l].iter().collect();
+                let want: Vec<&MSpan> = chain[..=l].iter().filter(|m| !m.hidden).collect();
                 match j.get("spans") {
+                    None if want.is_empty() => {}
                     Some(J::Arr(a)) => {
                         let names: Vec<Option<&str>> = a.iter().map(|x| x.get("name").and_then(|n| n.as_str())).collect();
                         let wn: Vec<Option<&str>> = want.iter().map(|m| Some(m.meta.name())).collect();
@@ -504,7 +536,7 @@ fn run_case_inner(case: &Case) -> Outcome {
                 }
             }
         }
-        if ev.parent.is_some() && !chain.is_empty() {
+        if ev_parent.is_some() && !chain.is_empty() {
             classes.push("event_with_explicit_parent".into());
         }
     }
@@ -602,7 +634,7 @@ pub fn fuzz_case(data: &[u8]) -> Case {
         let record_first = if u.ratio(1u8, 3u8).unwrap_or(false) { Some((u.int_in_range(0u8..=2).unwrap_or(0), (0..u.int_in_range(1u8..=2).unwrap_or(1)).map(|_| (u.int_in_range(0u8..=5).unwrap_or(0), fuzz_val(&mut u))).collect())) } else { None };
         events.push(EventSpec { meta, values, parent, record_first });
     }
-    Case { flatten: flags & 1 != 0, current_span: flags & 2 != 0, span_list: flags & 4 != 0, target: flags & 8 != 0, level: flags & 16 != 0, thread: flags & 32 != 0, spans, events, names: flags & 64 != 0, unnamed: flags & 128 != 0, concurrent: None }
+    Case { flatten: flags & 1 != 0, current_span: flags & 2 != 0, span_list: flags & 4 != 0, target: flags & 8 != 0, level: flags & 16 != 0, thread: flags & 32 != 0, spans, events, names: flags & 64 != 0, unnamed: flags & 128 != 0, concurrent: None, hidden: None }
 }
 pub fn fuzz_one(data: &[u8]) -> Outcome {
     run_case(&fuzz_case(data))
@@ -625,16 +657,16 @@ impl Property for C14 {
         let span = (0u8..3, proptest::collection::vec(ov(), 6), proptest::collection::vec(proptest::collection::vec((0u8..6, val_strategy()), 1..3), 0..5), 0u8..3).prop_map(|(meta, init, records, before_enter)| SpanSpec { meta, init, records, before_enter });
         let ev = (0u8..3, proptest::collection::vec(ov(), 5), proptest::option::weighted(0.2, 0u8..3), proptest::option::weighted(0.4, (0u8..3, proptest::collection::vec((0u8..6, val_strategy()), 1..3))))
             .prop_map(|(meta, values, parent, record_first)| EventSpec { meta, values, parent, record_first });
-        let extra = (proptest::bool::weighted(0.25), proptest::bool::weighted(0.4), proptest::option::weighted(0.04, (0u8..3, 0u8..6, 0u8..6, -9i64..100, -9i64..100)));
+        let extra = (proptest::bool::weighted(0.25), proptest::bool::weighted(0.4), proptest::option::weighted(0.04, (0u8..3, 0u8..6, 0u8..6, -9i64..100, -9i64..100)), proptest::option::weighted(0.15, 0u8..3));
         (any::<bool>(), proptest::bool::weighted(0.8), proptest::bool::weighted(0.8), any::<bool>(), any::<bool>(), proptest::bool::weighted(0.25), proptest::collection::vec(span, 0..4), proptest::collection::vec(ev, 1..5), extra)
-            .prop_map(|(flatten, current_span, span_list, target, level, thread, spans, events, (names, unnamed, concurrent))| Case { flatten, current_span, span_list, target, level, thread, spans, events, names, unnamed, concurrent })
+            .prop_map(|(flatten, current_span, span_list, target, level, thread, spans, events, (names, unnamed, concurrent, hidden))| Case { flatten, current_span, span_list, target, level, thread, spans, events, names, unnamed, concurrent, hidden })
             .boxed()
     }
     fn run(&self, case: &Case) -> Outcome {
         run_case(case)
     }
     fn rule(&self) -> String {
-        "case = JSON formatter options {flatten_event,current_span,span_list,target,level,thread ids,thread names} on a named or an unnamed thread x a chain of 0-3 spans (3 span callsites whose names, targets and field names contain quotes, backslashes, tabs, U+2028, non-ASCII, dots, keywords) with generated initial values and 0-4 later record calls (before / after entering) x 1-4 events, each optionally preceded by another record into a span of the chain (so that records happen between two outputs that show the span); in 4 % of the cases two threads record two fields of one span at the same instant with values whose Debug impl is slow (3 event callsites incl. control characters in a field name and a newline in the target; optional explicit parent). Values: i64/u64/i128/u128 incl. extremes, f64 incl. NaN, +-inf, -0.0, subnormals and round-trip-critical values, bool, strings over a hostile alphabet + arbitrary chars, bytes, errors, Display/Debug wrappers. non-trivial: something needs escaping, some span is recorded into >= 2 more times, and >= 2 spans are nested; distinct by case".into()
+        "case = JSON formatter options {flatten_event,current_span,span_list,target,level,thread ids,thread names} on a named or an unnamed thread x a chain of 0-3 spans (3 span callsites whose names, targets and field names contain quotes, backslashes, tabs, U+2028, non-ASCII, dots, keywords) with generated initial values and 0-4 later record calls (before / after entering) x 1-4 events, each optionally preceded by another record into a span of the chain (so that records happen between two outputs that show the span); in 4 % of the cases two threads record two fields of one span at the same instant with values whose Debug impl is slow; in 15 % of the cases the JSON layer sits behind a per-layer filter that hides the spans of one span callsite from it (3 event callsites incl. control characters in a field name and a newline in the target; optional explicit parent). Values: i64/u64/i128/u128 incl. extremes, f64 incl. NaN, +-inf, -0.0, subnormals and round-trip-critical values, bool, strings over a hostile alphabet + arbitrary chars, bytes, errors, Display/Debug wrappers. non-trivial: something needs escaping, some span is recorded into >= 2 more times, and >= 2 spans are nested; distinct by case".into()
     }
     fn assumptions(&self) -> Vec<String> {
         vec![
